@@ -118,6 +118,8 @@ class World:
                     if op.get("nproj"):
                         kw["nproj"] = op["nproj"]
                     sampler = ACHRSampler(self.model, **kw) if m == "achr" else OptGPSampler(self.model, processes=p, **kw)
+                    if op.get("between"):
+                        self._other_sampler(op["between"])
                     df = sampler.sample(n, fluxes=op.get("fluxes", True))
                     if op.get("again"):
                         # the sampler object carries state (centre, sample count) into its next call: those samples count too
@@ -201,7 +203,7 @@ class World:
                 self.stats["probe:validate_perturbation_checked"] += 1
         # ---- seed replay ----
         if op.get("seed") is not None and not faulted and not op.get("fault"):
-            key = digest({k: v for k, v in op.items() if k not in ("perturb_col",)})
+            key = digest({k: v for k, v in op.items() if k not in ("perturb_col", "between")})
             sig = [[round(x, 12) for x in row] for row in rows]
             if key in self.results:
                 if self.results[key] != sig:
@@ -209,6 +211,23 @@ class World:
                 self.stats["probe:seed_replay_checked"] += 1
             else:
                 self.results[key] = sig
+
+    def _other_sampler(self, b):
+        """Another sampler, for a *different* model (all bounds three times as wide), is built - and perhaps used - between the
+        construction of a sampler and its use: sampler objects are independent of each other."""
+        from cobra.sampling import ACHRSampler, OptGPSampler
+
+        try:
+            other = self.model.copy()
+            for r in other.reactions:
+                r.bounds = (3 * r.lower_bound, 3 * r.upper_bound)
+            kw = {"thinning": b.get("thinning", 1), "seed": b.get("seed")}
+            o = ACHRSampler(other, **kw) if b["method"] == "achr" else OptGPSampler(other, processes=b.get("processes", 1), **kw)
+            if b.get("n"):
+                o.sample(b["n"])
+            self.stats["probe:other_sampler_between_construction_and_use"] += 1
+        except Exception:
+            self.stats["other_sampler_refused"] += 1
 
     def _infeasible(self, v):
         probs = []
@@ -253,6 +272,9 @@ def gen_ops(rng, W):
               "processes": rng.choice([1, 1, 2, 3, 4]) if m == "optgp" else 1, "perturb_col": rng.randint(0, 5)}
         if rng.random() < 0.3:
             op["again"] = rng.choice([1, 2, 4])
+        if op["via"] == "object" and rng.random() < 0.3:
+            op["between"] = {"method": rng.choice(["optgp", "optgp", "achr"]), "processes": rng.choice([1, 1, 2]),
+                             "seed": rng.randint(1, 10 ** 6), "n": rng.choice([0, 0, 2]), "thinning": rng.choice([1, 3])}
         yield op
         if rng.random() < 0.25:
             # a warm-up solve fails (numerically hard models do that): the sampler skips it - the samples must stay feasible
@@ -261,7 +283,10 @@ def gen_ops(rng, W):
             yield f
         if op["seed"] is not None:
             yield {"op": "perturb_rng", "seed": rng.randint(0, 2 ** 31 - 1), "draws": rng.randint(0, 5)}
-            yield copy.deepcopy(op)
+            again = copy.deepcopy(op)
+            if "between" in again and rng.random() < 0.6:
+                del again["between"]  # the same call without another sampler in between: same samples
+            yield again
 
 
 def _execute(trace, prop, run_cfg, streams=None):
